@@ -225,6 +225,10 @@ def arg_source(F, body, op, depth=0):
     return {"<%s>" % kind}
 
 
+LAYERED_UNCONDITIONAL = {"on_register_dispatch", "on_subscribe", "on_new_span", "on_record", "on_follows_from", "on_event", "on_enter", "on_exit",
+                         "on_close", "on_id_change", "new_span", "record", "record_follows_from", "event", "enter", "exit", "clone_span"}
+
+
 def check_forwarding(ck, F, tr, imp, iname, m):
     name = m["name"]
     path = imp["methods"][name]
@@ -305,6 +309,13 @@ def check_forwarding(ck, F, tr, imp, iname, m):
         fb = fwd[0][1]
         if not top.postdominates(fb, 0):
             problems.append("a path returns without reaching the forwarding call")
+    # Layered: plain notifications reach both halves on every path (only the verdict methods may short-circuit)
+    if hd.endswith("::Layered") and name in LAYERED_UNCONDITIONAL:
+        for b, bb, t in fwd:
+            if name == "clone_span" and t["callee"]["trait"] == SUBSCRIBE:
+                continue        # on_id_change is by design sent only when the inner collector returned a different id
+            if b is top and not top.postdominates(bb, 0):
+                problems.append("`%s` is forwarded to %s only on some paths" % (t["callee"]["method"], receiver_key(b, t)))
     if problems:
         ck.bad(RIDS["R2"], key, where(top.raw["sp"]), "; ".join(problems), fn=path)
     else:
